@@ -26,7 +26,10 @@ class _Return(Exception):
 
 
 class ListInterp:
-    def __init__(self, self_attrs: Dict[str, Any], self_name: str = "self", np_names=("np", "numpy"), max_steps: int = 20000):
+    def __init__(self, self_attrs: Dict[str, Any], self_name: str = "self", np_names=("np", "numpy"), max_steps: int = 20000,
+                 functions: Dict[str, ast.FunctionDef] = None):
+        self.functions = dict(functions or {})      # functions of the package the accessor calls by name: interpreted in turn (same fragment)
+        self.depth = 0
         self.self_attrs = self_attrs
         self.self_name = self_name
         self.np_names = set(np_names)
@@ -285,6 +288,32 @@ class ListInterp:
             name = f.attr
         elif isinstance(f, ast.Attribute) and isinstance(f.value, ast.Name) and f.value.id == "chain" and f.attr == "from_iterable":
             name = "chain.from_iterable"
+        if name is not None and name in self.functions and not any(isinstance(a, ast.Starred) for a in e.args):
+            fn = self.functions[name]
+            a_ = fn.args
+            if a_.vararg or a_.kwarg or a_.kwonlyargs or a_.posonlyargs or self.depth >= 3:
+                raise Unsupported(f"call {name}")
+            params = [x.arg for x in a_.args]
+            env2 = dict(zip(params, args))
+            for k_, v_ in kw.items():
+                if k_ not in params or k_ in env2:
+                    raise Unsupported(f"call {name}")
+                env2[k_] = v_
+            for p_, d_ in zip(params[::-1], list(a_.defaults)[::-1]):
+                if p_ not in env2:
+                    if not isinstance(d_, ast.Constant):
+                        raise Unsupported(f"call {name}: default of {p_}")
+                    env2[p_] = d_.value
+            if set(env2) != set(params):
+                raise Unsupported(f"call {name}: arguments")
+            self.depth += 1
+            try:
+                self.block(fn.body, env2)
+            except _Return as r:
+                return r.value
+            finally:
+                self.depth -= 1
+            return None
         if name is not None:
             if name == "len":
                 return len(args[0])
